@@ -43,6 +43,26 @@ def bootstrap_hypothesis():
     import hypothesis  # noqa: F401
 
 
+def bootstrap_atheris() -> bool:
+    """atheris (coverage-guided fuzzing) is optional: installed offline into /verif/.deps; False when unavailable."""
+    if DEPS_DIR not in sys.path and os.path.isdir(DEPS_DIR):
+        sys.path.insert(1, DEPS_DIR)
+    try:
+        import atheris  # noqa: F401
+        return True
+    except ImportError:
+        pass
+    try:
+        subprocess.check_call([sys.executable, "-m", "pip", "install", "--quiet", "--no-index", "--find-links", WHEELS,
+                               "--target", DEPS_DIR, "atheris"], stdout=subprocess.DEVNULL, stderr=subprocess.DEVNULL)
+        if DEPS_DIR not in sys.path:
+            sys.path.insert(1, DEPS_DIR)
+        import atheris  # noqa: F401
+        return True
+    except Exception:
+        return False
+
+
 def setup_paths():
     src = os.path.join(REPO_DIR, "src")
     if not os.path.isdir(os.path.join(src, "qce_circuit")):
